@@ -40,6 +40,12 @@ CRAFTED = {
     # an included entity that clashes with a declaration of the including scope: the diagnostic belongs to a line of the includer
     "long_inc.f90": "! c\n" * 20 + "integer :: dup\ntype(nosuch_t) :: bad\n",
     "incl_dup.f90": "subroutine sdup()\n  integer :: dup\n  include 'long_inc.f90'\nend subroutine sdup\n",
+    # argument keywords in a call of a procedure one of whose dummy arguments has no declaration (implicit typing)
+    "kw_undeclared.f90": "subroutine skw(a, b, c)\n  integer, optional :: b\n  if (present(b)) a = b\nend subroutine skw\n\nprogram pkw\n"
+                         "  call skw(1.0, b=2)\n  call skw(c=1, a=2.0)\n  call nosuch(b=1)\nend program pkw\n",
+    # components that reach a derived type through INCLUDE (the outline of the including file)
+    "comps_inc.f90": "! c\n" * 10 + "integer :: ncomp\n",
+    "type_inc.f90": "module mti\n  type tinc\n    include 'comps_inc.f90'\n  end type tinc\nend module mti\n",
     "odd.f90": "subroutine &\n  & s(a, &\n  b)\n  character(len=*) :: a, b ! tail\n  a = 'it''s' // \"q\" ; b = a\n  if (a == b) then ; end if\nend subroutine s\n!> doc\n\n",
 }
 
@@ -196,6 +202,26 @@ def sweep(tier: str = "quick", only=None, methods=None, collect=None):
                             w = dict(prob, document=name, method=meth, position=[ln, ch])
                             if found(w):
                                 return w, n_req
+        # the locations of the outline and of workspace symbols address existing places too
+        sym_reqs = [("textDocument/documentSymbol", {"textDocument": {"uri": ws.uri(name)}}, name) for name in docs] + \
+                   [("workspace/symbol", {"query": q}, f"(query {q!r})") for q in ("", "a", "s", "t", "dup", "n")]
+        for meth, params, label in (sym_reqs if not methods else []):
+            n_req += 1
+            srv.handle({"jsonrpc": "2.0", "id": rid, "method": meth, "params": params})
+            rid += 1
+            out = parse_out(rw.out)
+            rw.out.clear()
+            for m in out:
+                if "error" in m:
+                    tb = (m["error"].get("data") or {}).get("traceback", "")
+                    w = {"document": label, "method": meth, "error": str(m["error"].get("message"))[:200],
+                         "traceback_tail": [l for l in tb.strip().split("\n") if l.strip()][-3:]}
+                    if found(w):
+                        return w, n_req
+                for prob in check_ranges(m, files):
+                    w = dict(prob, document=label, method=meth)
+                    if found(w):
+                        return w, n_req
         # a document the server has never seen
         for meth in (methods or METHODS):
             params = {"textDocument": {"uri": ws.uri("never_opened.f90")}, "position": {"line": 0, "character": 0}}
